@@ -549,4 +549,174 @@ theorem handler_error_isolated_partial (fuel : Nat) (s : Sess) (hm : s.mode = .s
 example : runOuts sF9 [.msg (.event 77 1 { args := some [4] }) [{ raises := true }, {}, { raises := true }]] =
     [.invoke 0 1 [4] [], .userError, .invoke 1 2 [4] [], .invoke 2 3 [4] [], .userError] := by decide
 
+
+/-! ## "an id the session never held" -/
+
+theorem alookup_aupd_none {β : Type} {k k' : Nat} (v : β) {l : List (Nat × β)} (h : alookup k l = none) :
+    alookup k (aupd k' v l) = none := by
+  by_cases e : k = k'
+  · subst e; rw [alookup_aupd_self, h]; rfl
+  · rw [alookup_aupd_ne e]; exact h
+
+theorem alookup_adel_none {β : Type} {k k' : Nat} {l : List (Nat × β)} (h : alookup k l = none) :
+    alookup k (adel k' l) = none := by
+  by_cases e : k = k'
+  · subst e; exact alookup_adel_self _ _
+  · rw [alookup_adel_ne e]; exact h
+
+theorem apiStep_nosub {s : Sess} {sub : SubId} (a : Api) (h : alookup sub s.subs = none) :
+    alookup sub (apiStep s a).1.subs = none := by
+  cases a with
+  | unsubscribe o r =>
+    simp only [apiStep, apiUnsubscribe]
+    split
+    · exact h
+    · split
+      · exact h
+      · split
+        · rw [(request_fields _ _ _ _ _ _).2.1]; exact alookup_aupd_none _ h
+        · unfold futureSuccess; rw [(emitCb_fields _ _).2.1]; exact alookup_aupd_none _ h
+  | call u a k o r => rw [apiStep_subs (fun _ _ e => by cases e)]; exact h
+  | publish u a k o r => rw [apiStep_subs (fun _ _ e => by cases e)]; exact h
+  | subscribe hh t o r => rw [apiStep_subs (fun _ _ e => by cases e)]; exact h
+  | register hh t o r => rw [apiStep_subs (fun _ _ e => by cases e)]; exact h
+  | unregister o r => rw [apiStep_subs (fun _ _ e => by cases e)]; exact h
+  | cancel f => rw [apiStep_subs (fun _ _ e => by cases e)]; exact h
+  | join => rw [apiStep_subs (fun _ _ e => by cases e)]; exact h
+  | leave => rw [apiStep_subs (fun _ _ e => by cases e)]; exact h
+
+/-- `NoSubRel sub`: a step relation that only says "afterwards id `sub` is (still) not held" -/
+def NoSubRel (sub : SubId) (_ : Sess) (_ : List SOut) (s' : Sess) : Prop := alookup sub s'.subs = none
+
+theorem noSubLift (sub : SubId) : Lift (NoSubRel sub) (fun s => alookup sub s.subs = none) where
+  refl := fun h => h
+  trans := fun _ h2 => h2
+  post := fun _ r => r
+  caught := fun r => r
+  api := fun a h => apiStep_nosub a h
+  userError := fun h => by show alookup sub (emitCb _ _).1.subs = none; rw [(emitCb_fields _ _).2.1]; exact h
+  invoke := fun _ _ h _ => h
+
+theorem rejectList_subs (s : Sess) (o : Outcome) (fs : List FutId) : (rejectList s o fs).1.subs = s.subs := by
+  induction fs generalizing s with
+  | nil => rfl
+  | cons f fs ih =>
+    rw [rejectList_cons]; split
+    · exact ih s
+    · simp only []; rw [ih, (settle_fields _ _ _).1]
+
+theorem onLeaveDefault_subs (s : Sess) (reason : Nat) : (onLeaveDefault s reason).1.subs = s.subs := by
+  unfold onLeaveDefault
+  simp only []
+  split
+  · simp only []; rw [(emitCb_fields _ _).2.1, rejectList_subs]; rfl
+  · rw [rejectList_subs]; rfl
+
+/-- a step that is not "SUBSCRIBED naming `sub`" cannot make the session hold `sub` -/
+theorem step_nosub {s : Sess} {sub : SubId} (e : SEv) (he : ∀ id beh, e ≠ .msg (.subscribed id sub) beh)
+    (h : alookup sub s.subs = none) : alookup sub (step s e).1.subs = none := by
+  cases e with
+  | api a => exact apiStep_nosub a h
+  | pump => exact h
+  | open_ => simp only [step]; rw [(emitCb_fields _ _).2.1]; exact h
+  | closed =>
+    simp only [step]; split
+    · rw [onLeaveDefault_subs]; exact h
+    · rw [rejectList_subs]; exact h
+  | msg m beh =>
+    simp only [step, onMessage]
+    split
+    · split <;> exact h
+    · have hpop : ∀ (kind : Kind) (id : ReqId) (k : Sess → Req → Sess × List SOut),
+          (∀ s1 r, alookup sub s1.subs = none → alookup sub (k s1 r).1.subs = none) →
+          alookup sub (popReply s kind id k).1.subs = none := by
+        intro kind id k hk
+        unfold popReply; split
+        · exact h
+        · simp only []; split
+          · simpa using h
+          · exact hk _ _ (by simpa using h)
+      cases m with
+      | subscribed id sub' =>
+        simp only [onEstablished]
+        refine hpop _ _ _ (fun s1 r h1 => ?_)
+        rw [(settle_fields _ _ _).1]
+        have hne : sub ≠ sub' := fun e => he id beh (e ▸ rfl)
+        simp only []
+        split
+        · rw [alookup_append, h1]; simp [alookup_cons, Ne.symm hne]
+        · exact alookup_aupd_none _ h1
+      | goodbye => simp only [onEstablished]; rw [onLeaveDefault_subs]; exact h
+      | event sub' pub p =>
+        simp only [onEstablished]; split
+        · exact h
+        · exact (noSubLift sub).dispatch _ h _ _ _ _ _
+      | published id pub =>
+        simp only [onEstablished]
+        exact hpop _ _ _ (fun s1 r h1 => by rw [(settle_fields _ _ _).1]; exact h1)
+      | unsubscribed id =>
+        simp only [onEstablished]
+        exact hpop _ _ _ (fun s1 r h1 => by rw [(settle_fields _ _ _).1]; exact alookup_adel_none h1)
+      | result id p progress =>
+        simp only [onEstablished]; split
+        · exact h
+        · split
+          · split
+            · exact h
+            · split
+              · exact h
+              · split
+                · split
+                  · exact (noSubLift sub).runAct h none _
+                  · exact h
+                · exact (noSubLift sub).runAct h none _
+          · split
+            · exact h
+            · rw [(settle_fields _ _ _).1]; exact h
+      | registered id reg =>
+        simp only [onEstablished]
+        refine hpop _ _ _ (fun s1 r h1 => ?_)
+        split
+        · rw [(settle_fields _ _ _).1]; exact h1
+        · exact h1
+      | unregistered id reg =>
+        simp only [onEstablished]; split
+        · split <;> exact h
+        · exact hpop _ _ _ (fun s1 r h1 => by rw [(settle_fields _ _ _).1]; exact h1)
+      | error t id uri p =>
+        simp only [onEstablished]; split
+        · exact h
+        · split
+          · exact h
+          · split
+            · simpa using h
+            · rw [(settle_fields _ _ _).1]; simpa using h
+      | invocation id reg p =>
+        simp only [onEstablished]; split
+        · exact h
+        · split <;> exact h
+      | interrupt id => exact h
+      | welcome sid => exact h
+      | abort => exact h
+      | challenge => exact h
+      | other => exact h
+
+/-- `event_unknown_sub_is_violation`, as the property words it: after any history in which no SUBSCRIBED ever named
+the id `sub` — whatever else happened — an EVENT for `sub` on the joined session raises `ProtocolError` and changes
+nothing. (After UNSUBSCRIBED removed an id it is "not held" again, see `event_unknown_sub_is_violation`.) -/
+theorem event_for_never_held_id_is_violation (mode : Sched) (h : List SEv) (sub : SubId)
+    (hnever : ∀ e ∈ h, ∀ id beh, e ≠ .msg (.subscribed id sub) beh)
+    (sid : Nat) (hs : (runState (init mode) h).sessionId = some sid) (pub : Nat) (p : Payload) (beh : List HAct) :
+    step (runState (init mode) h) (.msg (.event sub pub p) beh) = (runState (init mode) h, [.raise_ .protocolError]) := by
+  have key : ∀ (s : Sess) (hist : List SEv), alookup sub s.subs = none →
+      (∀ e ∈ hist, ∀ id beh, e ≠ .msg (.subscribed id sub) beh) → alookup sub (runState s hist).subs = none := by
+    intro s hist
+    induction hist generalizing s with
+    | nil => intro h0 _; exact h0
+    | cons e es ih =>
+      intro h0 hn
+      rw [runState_cons]
+      exact ih _ (step_nosub e (hn e List.mem_cons_self) h0) (fun e' he' => hn e' (List.mem_cons_of_mem _ he'))
+  exact event_unknown_sub_is_violation _ sid hs sub pub p beh (key (init mode) h rfl hnever)
+
 end Abverif.Session
